@@ -86,7 +86,7 @@ Section Main.
         + apply in_app_or in H0. destruct H0 as [H0|[H0|[]]]; [|symmetry in H0; contradiction].
           destruct (I1 _ H0) as [y0 [Hv0 G0]]. exists y0. split; [exact Hv0|].
           rewrite (get_set_other _ _ _ _ _ S); [exact G0|].
-          apply (fpaths_incomparable template); auto.
+          apply (fpaths_incomparable ofZ template); auto.
       - intros p' H. rewrite (get_set_other _ _ _ _ _ S).
         + apply I2. intros p0 H0. apply H. apply in_or_app. left. exact H0.
         + apply H. apply in_or_app. right. left. reflexivity.
@@ -120,7 +120,7 @@ Section Main.
         - destruct (I1 _ Hd) as [y0 [_ G]]. eexists; exact G.
         - rewrite I2.
           + destruct (fpaths_get _ _ W Ip) as [v0 G]. eexists; exact G.
-          + intros p0 H0. apply (fpaths_incomparable template); auto. intro; subst; contradiction. }
+          + intros p0 H0. apply (fpaths_incomparable ofZ template); auto. intro; subst; contradiction. }
       destruct G as [c G].
       destruct (set_succeeds p (TF y) c cur (obj_paths_nonempty _ _ O Ip) G) as [cur' S]. rewrite S.
       apply (IH (done ++ [p]) cur').
@@ -140,7 +140,7 @@ Section Main.
   End Fold.
 
   (* ---------- unfolding __getitem__ ---------- *)
-  Lemma step_is_stepv vm xs v : step interp vm xs v = stepv (leaf_value interp vm xs v).
+  Lemma step_is_stepv vm xs v : step eqb ofZ interp vm xs v = stepv (leaf_value interp vm xs v).
   Proof. reflexivity. Qed.
 
   Lemma interp_at_new assign insts q qv r :
@@ -214,7 +214,7 @@ Section Main.
   (* the value handed to scipy for abscissa x is the one of the instance whose abscissa is x *)
   Lemma y_at_series q insts ks inst x p :
     keys_of q insts = Some ks -> distinct eqb ks -> In inst insts -> abscissa ofZ q inst = Some x ->
-    y_at ofZ eqb (vm_build eqb ks insts) p x = value_at p inst.
+    y_at eqb ofZ (vm_build eqb ks insts) p x = value_at p inst.
   Proof.
     intros K D I A. destruct (keys_of_in _ _ _ _ K I) as [i [x' [Ni [Nx A']]]].
     rewrite A in A'. inversion A'. subst x'.
@@ -292,7 +292,7 @@ Section Main.
     interp_at leb eqb ofZ interp assign (template :: rest) q qv = ONew r ->
     exists v ks, num_of ofZ qv = Some v /\ keys_of q (template :: rest) = Some ks /\
       forall p, In p (fpaths template) -> (assign = true -> p <> qkeys q) ->
-        exists y, leaf_value ofZ eqb interp (vm_build eqb ks (template :: rest))
+        exists y, leaf_value eqb ofZ interp (vm_build eqb ks (template :: rest))
                              (sort_keys leb (map fst (vm_build eqb ks (template :: rest)))) v p = Some y
                   /\ get p r = Some (TF y).
   Proof.
@@ -393,8 +393,8 @@ Section Main.
   Lemma leaf_value_perm q insts insts' ks ks' v p :
     keys_of q insts = Some ks -> keys_of q insts' = Some ks' -> Permutation insts insts' ->
     Permutation ks ks' -> distinct eqb ks ->
-    leaf_value ofZ eqb interp (vm_build eqb ks insts) (sort_keys leb (map fst (vm_build eqb ks insts))) v p =
-    leaf_value ofZ eqb interp (vm_build eqb ks' insts') (sort_keys leb (map fst (vm_build eqb ks' insts'))) v p.
+    leaf_value eqb ofZ interp (vm_build eqb ks insts) (sort_keys leb (map fst (vm_build eqb ks insts))) v p =
+    leaf_value eqb ofZ interp (vm_build eqb ks' insts') (sort_keys leb (map fst (vm_build eqb ks' insts'))) v p.
   Proof.
     intros K K' P Pk D. pose proof (distinct_perm eqb _ _ D Pk) as D'.
     assert (M : forall i k (Kk : keys_of q i = Some k), distinct eqb k -> map fst (vm_build eqb k i) = k).
@@ -447,8 +447,8 @@ Section Main.
       destruct (keys_of_nth _ _ _ _ _ K Nk) as [inst [Ni A]].
       pose proof (known_point assign insts q qv v ks i inst k Hv K D Ni A Ek) as X. rewrite X in H. discriminate. }
     (* the same values are computed for every float path *)
-    set (val := leaf_value ofZ eqb interp (vm_build eqb ks insts) (sort_keys leb (map fst (vm_build eqb ks insts))) v) in *.
-    set (val' := leaf_value ofZ eqb interp (vm_build eqb ks' (template' :: rest'))
+    set (val := leaf_value eqb ofZ interp (vm_build eqb ks insts) (sort_keys leb (map fst (vm_build eqb ks insts))) v) in *.
+    set (val' := leaf_value eqb ofZ interp (vm_build eqb ks' (template' :: rest'))
                             (sort_keys leb (map fst (vm_build eqb ks' (template' :: rest')))) v).
     assert (Ev : forall p, val p = val' p) by (intro p; apply (leaf_value_perm q); auto).
     subst insts.
